@@ -14,7 +14,7 @@ EXPLANATION = (
     'out-parameter is written on every path that returns an option. That a qualified path picks the right instance is '
     'NOT decided (values).')
 
-NAME_COMPARERS = {'cfg_getopt_leaf', 'cfg_getopt_array', 'cfg_init_defaults'}
+NAME_COMPARERS = {'cfg_getopt_leaf', 'cfg_getopt_array', 'cfg_init_defaults', 'cfg_getopt_secidx', 'cfg_getopt'}
 RESOLVER_FAMILY = ['cfg_getopt_secidx', 'cfg_getopt_leaf', 'parse_title', 'cfg_opt_gettsecidx', 'cfg_opt_getnsec', 'cfg_opt_size', 'cfg_getopt', 'cfg_getopt_array']
 
 
@@ -34,7 +34,7 @@ def run(c, chk):
     def cmp_calls(f):
         # calls of strcmp()/strcasecmp(), also through a pointer that is one of the two (picked once by the case flag)
         from . import c14 as _c14x
-        out = list(f.calls('strcmp')) + list(f.calls('strcasecmp'))
+        out = list(f.calls('strcmp')) + list(f.calls('strcasecmp')) + list(f.calls('strncmp')) + list(f.calls('strncasecmp')) + list(f.calls('memcmp'))
         for call in f.calls():
             if call.callee_name() is None and call.callee.kind == 'reg':
                 fld = _c14x.fnptr_field(f, call.callee)
@@ -66,32 +66,60 @@ def run(c, chk):
     extra = sorted(comparers - NAME_COMPARERS)
     if extra:
         chk.fail('R11.1', 'second-resolver:%s' % ','.join(extra), c.where(c.func(extra[0])), 'option names are also compared in %s(): a second, possibly diverging resolver' % ', '.join(extra))
-    elif 'cfg_getopt_leaf' not in comparers:
+    elif not (comparers & {'cfg_getopt_leaf', 'cfg_getopt_secidx', 'cfg_getopt'}):
         raise report.Broken('the leaf comparison routine was not found')
     else:
         chk.ok('R11.1', 'name comparisons', 'only in %s' % sorted(comparers), sample=True)
-    # a step of a path must match a whole option name: a length-limited comparison needs an end-of-name test
+    # a step of a path must match a whole option name: a length-limited comparison needs an end-of-name test - on the very
+    # path on which the comparison said "equal" (one arm of a case switch may have the test, the other not)
+    exn = sym.Explorer(c.modules, max_visits=2, mod_sets=c.mod_sets, max_paths=50000)
     for f in mod.funcs.values():
-        for call in list(f.calls('strncmp')) + list(f.calls('strncasecmp')) + list(f.calls('memcmp')):
-            if not any(loads_field(f, a, '%struct.cfg_opt_t', 'name') for a in call.args):
-                continue
-            ends = False
-            for ins in f.instrs():
-                if ins.op == 'call' and ins.callee_name() == 'strlen' and any(loads_field(f, a, '%struct.cfg_opt_t', 'name') for a in ins.args):
-                    ends = True
-                if ins.op == 'load' and ins.ops[0].kind == 'reg':
-                    g = f.defs.get(ins.ops[0].name)
-                    if g is not None and g.op == 'getelementptr' and loads_field(f, g.ops[0], '%struct.cfg_opt_t', 'name') and g.ops[-1].kind == 'reg':
-                        ends = True         # name[len] is read (to be compared with the terminator)
-            if not ends:
-                chk.fail('R11.1', 'prefix-match:%s' % sorted(c.owners(f.name))[0], c.where(call),
-                         '%s() compares only the first len characters of an option name with a path step and never checks that the name ends there: '
-                         'a step "net" also selects an option called "network"' % f.name)
+        ncalls = [call for call in list(f.calls('strncmp')) + list(f.calls('strncasecmp')) + list(f.calls('memcmp'))
+                  if any(loads_field(f, a, '%struct.cfg_opt_t', 'name') for a in call.args)]
+        if not ncalls:
+            continue
+        badp = None
+        for p in exn.explore(f):
+            for e in p.events:
+                if e.kind != 'call' or e.name not in ('strncmp', 'strncasecmp', 'memcmp') or e.fn != f.name or len(e.args) < 3:
+                    continue
+                equal = any(cn[0] == 'icmp' and cn[1] in ('eq', 'ne') and e.res in (cn[2], cn[3]) and sym.C0 in (cn[2], cn[3]) and ((cn[1] == 'eq') == t)
+                            for cn, t, _ in p.assume)
+                if not equal:
+                    continue
+                names = [a for a in e.args[:2] if sym.mentions(a, lambda v: v[0] == 'fld' and len(v) > 3 and v[3] == 'name')]
+                if not names:
+                    continue
+                nm, ln = names[0], e.args[2]
+                ends = False
+                for cn, t, _ in p.assume:
+                    if cn[0] != 'icmp' or cn[1] not in ('eq', 'ne'):
+                        continue
+                    for x, y in ((cn[2], cn[3]), (cn[3], cn[2])):
+                        w = x
+                        while w[0] == 'bin' and w[1] in ('sext', 'zext', 'trunc'):
+                            w = w[2]
+                        if y == sym.C0 and w[0] == 'ld' and w[1][0] == 'idx' and w[1][1] == nm and sym.norm(w[1][2]) == sym.norm(ln) and ((cn[1] == 'eq') == t):
+                            ends = True       # name[len] == 0
+                        if x[0] == 'call' and x[1] == 'strlen' and sym.norm(y) == sym.norm(ln) and ((cn[1] == 'eq') == t) and \
+                                any(e2.kind == 'call' and e2.res == x and e2.args and e2.args[0] == nm for e2 in p.events):
+                            ends = True       # strlen(name) == len
+                if not ends:
+                    badp = badp or (p, e)
+        if badp is not None:
+            p, e = badp
+            chk.fail('R11.1', 'prefix-match:%s' % sorted(c.owners(f.name))[0], c.where(e.ins),
+                     '%s() compares only the first len characters of an option name with a path step (%s()) and accepts the option without having checked that the '
+                     'name ends there: a step "net" also selects an option called "network"' % (f.name, e.name))
+        else:
+            chk.ok('R11.1', '%s: length-limited name comparison' % f.name, 'every path on which it says "equal" also tests that the declared name ends at that length')
     sec = c.need('cfg_getopt_secidx')
     # the one walker: the function (the resolver itself, or a helper split off it) whose loop takes a path apart step by step
     walker = step_loop(c, sec)[0].name
-    direct = sorted(set(f.name for f in c.all_funcs() for _ in f.calls('cfg_getopt_leaf')))
-    stray = [n_ for n_ in direct if n_ != walker and not any(True for _ in c.func(n_).calls(walker))
+    leafs_ = leaf_functions(c)
+    direct = sorted(set(f.name for f in c.all_funcs() for lf in leafs_ for _ in f.calls(lf)))
+    stray = [n_ for n_ in direct if n_ != walker and not any(True for _ in c.func(n_).calls(walker)) and n_ not in leafs_
+             and n_ not in ('cfg_getopt_array', 'cfg_init_defaults')
              and not (n_ in c.unknown_funcs and set(c.owners(n_)) <= ({walker} | set(c.owners(walker))))]
     if stray:
         leaf_callers = sorted(set(o for n_ in stray for o in c.owners(n_)))
@@ -376,6 +404,32 @@ def run(c, chk):
             chk.fail('R11.4', 'caller-shape:%s' % fname, c.where(f), '%s() no longer resolves through cfg_getopt_secidx() + %s()' % (fname, callee))
 
 
+def leaf_functions(c):
+    """the functions that look one name up in the option table of ONE context (the leaf of path resolution): those that
+    compare a declared option name with their argument (also a comparison helper shared with the schema walker), and the
+    functions that merely wrap such a helper; the schema walker and the constructor's duplicate test are not leaves"""
+    walkers = ('cfg_getopt_array', 'cfg_init_defaults', 'cfg_getopt_secidx', 'cfg_getopt')
+    cmp_ = []
+    for f in c.confuse.funcs.values():
+        if f.name in walkers:
+            continue
+        for call in f.calls():
+            if call.callee_name() in ('strcmp', 'strcasecmp', 'strncmp', 'strncasecmp', 'memcmp') and any(loads_field(f, a, '%struct.cfg_opt_t', 'name') for a in call.args):
+                if f.name in c.unknown_funcs and set(c.owners(f.name)) <= {'cfg_init_defaults'}:
+                    continue
+                cmp_.append(f.name)
+                break
+    out = set(cmp_)
+    for f in c.confuse.funcs.values():
+        if f.name in walkers or f.name in out:
+            continue
+        if any(True for h in cmp_ if h in c.unknown_funcs for _ in f.calls(h)) and f.name not in c.unknown_funcs:
+            out.add(f.name)          # a wrapper of the comparison helper (cfg_getopt_leaf(cfg, name) -> helper(cfg->opts, ...))
+    if 'cfg_getopt_leaf' in c.confuse.funcs:
+        out.add('cfg_getopt_leaf')
+    return sorted(out)
+
+
 def leaves_loop(ex, f, h, p):
     """does a path that came back to the loop head carry values with which the loop condition ends the loop (e.g. the state
     variable of a small automaton was set to a final state)?  Decided by running the head with those values: no path
@@ -404,7 +458,7 @@ def leaves_loop(ex, f, h, p):
 def step_loop(c, secf):
     """(function, loop header) of the loop that takes a path apart step by step: the outermost loop - in the resolver or in a
     helper split off it - in which the name of a step is looked up"""
-    leafs = ('cfg_getopt_leaf',)
+    leafs = tuple(leaf_functions(c))
     for g in c.deep_funcs(secf):
         loops = _cfg.natural_loops(g)
         def looks_up(i):
@@ -412,7 +466,7 @@ def step_loop(c, secf):
             if n_ in leafs:
                 return True
             h_ = c.func(n_) if n_ in c.unknown_funcs else None
-            return h_ is not None and h_ is not g and any(True for x in c.deep_funcs(h_) for _ in x.calls(leafs[0]))
+            return h_ is not None and h_ is not g and any(True for x in c.deep_funcs(h_) for lf in leafs for _ in x.calls(lf))
         cands = [h for h, body in loops.items() if any(looks_up(i) for b in body for i in g.blocks[b].instrs)]
         if cands:
             # outermost: the one whose body contains the others
